@@ -16,6 +16,6 @@ CONSTANTS
   MaxCalls = 5
   MCToks = {"t1"}
 SPECIFICATION MCFairSpec
-INVARIANT SlotType TableInv ProbeBounded TablesDisjointFromData NoDamage
+INVARIANT CursorBehindImage SlotType TableInv ProbeBounded TablesDisjointFromData NoDamage
 PROPERTY Termination AbsSpec
 CHECK_DEADLOCK FALSE
